@@ -355,7 +355,7 @@ def op_const(op):
 class Facts:
     """All crates of one build configuration."""
 
-    def __init__(self, directory):
+    def __init__(self, directory, canonical=True):
         self.dir = directory
         self.crates = []
         self.bodies = {}        # path -> Body   (non-test units win)
@@ -365,8 +365,16 @@ class Facts:
         self.impls = []
         self.consts = {}
         self.units = []
-        for f in sorted(glob.glob(os.path.join(directory, "*.json"))):
-            raw = json.load(open(f))
+        files = sorted(glob.glob(os.path.join(directory, "*.json")))
+        raws = [json.load(open(f)) for f in files]
+        self.renames = {}
+        if canonical:
+            from . import canon
+            try:
+                self.renames = canon.canonicalise(raws)
+            except Exception as e:          # the layer is an aid, never a reason to fail: without it the rules fail closed on missing anchors
+                self.renames = {"error": "%s: %s" % (type(e).__name__, e)}
+        for f, raw in zip(files, raws):
             unit = {"crate": raw["crate"], "types": raw["crate_types"], "test": raw["test"],
                     "cfgs": raw["cfgs"], "src": raw["src"], "nbodies": len(raw["bodies"]), "file": os.path.basename(f)}
             self.units.append(unit)
